@@ -99,3 +99,27 @@ CHECKS["C06"] = {
     "note": "64-bit sources are not exhaustive. Flag-abort build observes aborts as failed dynamic_checks. Trusted: TLC, "
             "harness/conv_driver.cpp (records outcome classes mechanically), vm backend, g++ 12.",
 }
+
+CHECKS["C05"] = {
+    "technique": "TLA+ Contract/Model (Addr): exact-arithmetic Contract vs transcribed uintptr_t computation checked by TLC "
+                 "on a scaled address space; exhaustive/interval-summarised sweeps of the real operators judged by TLC "
+                 "(Trace_Addr) with exact wide integers",
+    "text": "TLC checks on a 2^8-byte address space that the transcribed address computation (with its modular arithmetic "
+            "and the overflow guard) returns exactly p+-n*s iff that lies in p's region and aborts otherwise, for every "
+            "base, stride and operand, and that accepted operands are convex; the real operators + - += -= ++ -- [] &[] are "
+            "swept on a foreign-ABI sandbox for 11 pointee kinds (guest stride differs from the host's), first/last/interior/"
+            "null bases, all operand types plain/tainted/tainted_volatile - 8/16-bit operands exhaustively, wider ones at "
+            "boundary and wrap-prone values - and every run is judged by TLC in exact arithmetic.",
+    "note": "32/64-bit operands not exhaustive; strides come from the harness' own table of wasm32 sizes. Trusted: TLC, "
+            "harness/ptr_driver.cpp, vm backend, g++ 12.",
+}
+CHECKS["C17"] = {
+    "technique": "TLA+ Contract (Addr.IndexAllowed) evaluated by TLC on exhaustive/interval-summarised sweeps of operator[] "
+                 "on tainted<T[N]> and tainted_volatile<T[N]>",
+    "text": "Every 8-bit (and per tier 16-bit) index value, and boundary/aliasing values of 32/64-bit index types, plain "
+            "and tainted, are applied to fixed-size arrays of 6 element types and 6-10 lengths living in application "
+            "memory and in sandbox memory (guest element size), plus a 2-D shape; TLC judges every run: abort iff the "
+            "index is negative or >= length (mathematically, whatever the index type), otherwise exactly element idx "
+            "under the layout of the memory the array lives in.",
+    "note": "Index types wider than 16 bits are not exhaustive. Trusted: TLC, harness/ptr_driver.cpp, g++ 12.",
+}
